@@ -180,7 +180,7 @@ func cmdCheck(args []string) {
 			pres[fr.Ex] = [2]string{fr.Pre, fr.PreExact}
 		}
 		for _, o := range fr.Obligs {
-			if fr.Con.Flags["sweep"] && o.Kind != "create" && o.Kind != "pre" {
+			if fr.Con.Flags["sweep"] && o.Kind != "create" && !(o.Kind == "pre" && sweepPre(g, o, *prop)) {
 				continue
 			}
 			if notClaimed[baseName(o.Name)] {
@@ -257,13 +257,30 @@ func cmdCheck(args []string) {
 		}
 	}
 	if *update {
+		// re-time everything that failed or was slow, one obligation at a time (clean timing)
+		var again []*Oblig
+		for _, o := range obs {
+			if o.Res == nil || o.Res.Status != "unsat" || o.Res.TimeS > 4 {
+				again = append(again, o)
+			}
+		}
+		for _, o := range again {
+			solveAll([]*Oblig{o}, pres, timeout, 1, false, dir)
+		}
 		var names []string
 		seen := map[string]bool{}
 		slow := map[string]bool{}
+		failedBase := map[string]bool{}
 		for _, o := range obs {
 			if o.Res != nil && o.Res.Status == "unsat" && o.Res.TimeS > 8 {
 				fmt.Printf("not claimed (slow, %.1fs): %s\n", o.Res.TimeS, o.Name)
 				slow[baseName(o.Name)] = true
+			}
+		}
+		for _, o := range obs {
+			if o.Res == nil || o.Res.Status != "unsat" {
+				slow[baseName(o.Name)] = true // some obligation of this clause is not discharged: not claimed
+				failedBase[baseName(o.Name)] = true
 			}
 		}
 		for _, o := range obs {
@@ -282,7 +299,7 @@ func cmdCheck(args []string) {
 			if (o.Res == nil || o.Res.Status != "unsat" || slow[bn]) && !have[bn] && !seen[bn] {
 				have[bn] = true
 				reason := "not discharged on the unchanged tree when the claimed set was recorded (" + o.Res.Status + "): needs an invariant that is not contracted yet; undecided, not a violation"
-				if slow[bn] {
+				if slow[bn] && !failedBase[bn] {
 					reason = "discharges, but too slowly to be claimed (unstable near the timeout)"
 				}
 				cfg.NotClaimed = append(cfg.NotClaimed, struct {
@@ -344,6 +361,9 @@ func finish(prop, tier string, seed int, cfg *propConfig, frs []*FuncResult, obs
 	for _, nc := range cfg.NotCovered {
 		assumptions = append(assumptions, "not covered: "+nc)
 	}
+	for _, nc := range cfg.NotClaimed {
+		assumptions = append(assumptions, "undecided obligation (its clause is assumed by callers, not proved): "+nc.Obligation)
+	}
 	if len(samples) == 0 {
 		samples = append(samples, "no obligations generated")
 	}
@@ -358,6 +378,7 @@ func finish(prop, tier string, seed int, cfg *propConfig, frs []*FuncResult, obs
 		"solver_time_s":            round2(solverTime),
 		"known_findings_reported":  nKnown,
 		"lemma":                    cfg.Lemma,
+		"not_claimed":              cfg.NotClaimed,
 	}
 	ev := map[string]interface{}{
 		"property_id": prop,
@@ -421,4 +442,22 @@ func cmdReplay(args []string) {
 	if strings.Contains(out, "GVC-REPLAY: VIOLATED") {
 		os.Exit(1)
 	}
+}
+
+// sweepPre: in swept (contract-less) functions only the preconditions of callees that ask for it
+// (sweep-callers) and belong to the property are obligations.
+func sweepPre(g *Gen, o *Oblig, prop string) bool {
+	if o.Clause == nil || o.Clause.Owner == nil {
+		return false
+	}
+	cc := o.Clause.Owner
+	if !cc.Flags["sweep-callers"] {
+		return false
+	}
+	for _, p := range cc.Props {
+		if p == prop {
+			return true
+		}
+	}
+	return false
 }
